@@ -74,9 +74,16 @@ def strategy(draw):
                 kind = draw(st.sampled_from(["Offset", "Inset", "Onset"]))
             else:
                 kind = "Onset"
+            delayed = ""
+            if draw(st.integers(0, 2)) == 0:     # a Delay-shifted marker: takes effect at onset + delay
+                delayed = "Delay/" + ["0.1", "0.2", "0.3", "0.4", "0.7", "0.9"][r % 6] + " s, "
+                features.add("delay")
             if kind == "Offset":
                 open_defs.discard(name)
-                extras.append(f"({kind}, Def/{spelled})")
+                extras.append(f"({delayed}{kind}, Def/{spelled})")
+            elif delayed:
+                open_defs.add(name)
+                extras.append(f"({delayed}{kind}, Def/{spelled})")
             else:
                 open_defs.add(name)
                 inner = draw(gen_tab.template(VERSION, used, max_depth=0, max_children=2))
@@ -106,6 +113,14 @@ def strategy(draw):
             features.add("fault:" + str(mut["mutation"]))
             faulty_rows.append(r)
             extras = []
+        if roll == 8:
+            vcols = [h for h in header if spec["columns"].get(h, {}).get("kind") == "value"
+                     and h not in gen_tab.all_refs(spec)]
+            if vcols:
+                vc = draw(st.sampled_from(vcols))
+                row[header.index(vc)] = draw(st.sampled_from(["a[b", "x]", "p~q"]))   # forbidden character in a value
+                features.add("fault:value-cell")
+                faulty_rows.append(r)
         if extras:
             base = row[hidx]
             row[hidx] = ", ".join(([base] if base not in ("n/a", "") else []) + extras)
